@@ -9,11 +9,11 @@
    object that is not live (outcome Dangling of [step]).  [listed u p] = p is in u's input or output
    port list. *)
 From OlaBase Require Import Bytes.
-From C03 Require Import Gen Model Lemmas Proofs Proofs2.
+From C03 Require Import Gen Model Lemmas Proofs Proofs2 Model2 Proofs3 Proofs4.
 Local Open Scope N_scope.
 
 (* the constants regenerated from include/ola/dmx/SourcePriorities.h are the property's numbers *)
-Theorem c03_consts : (SOURCE_PRIORITY_MAX, SOURCE_PRIORITY_DEFAULT) = (200, 100).
+Theorem c03_consts : (SOURCE_PRIORITY_MAX, SOURCE_PRIORITY_DEFAULT, PRIORITY_MODE_INHERIT, PRIORITY_MODE_STATIC) = (200, 100, 0, 1).
 Proof. reflexivity. Qed.
 Print Assumptions c03_consts.
 
@@ -143,3 +143,127 @@ Example ex_gc_collects :
   | None => False
   end.
 Proof. vm_compute. split; reflexivity. Qed.
+
+(* ====================================================================================================
+   Round 2: the extended model (Model2.v).  [xc : xcfg] adds to the configuration
+     - [xc_veto], an ARBITRARY function: the verdict of the port's PreSetUniverse hook given the port, the
+       requested universe (None = un-patch) and the current patching (universe numbers) of every port of
+       the same device -- ShowNet's sibling check and any other state-dependent rule are instances; the
+       number-based veto sets of [cfg] are kept as well;
+     - arbitrary preloaded port preferences (saved patching, priority value, priority mode).
+   [xop] adds DeviceManager::RegisterDevice / UnregisterDevice / UnregisterAllDevices and
+   OlaServerServiceImpl::RegisterForDmx (REGISTER / UNREGISTER) to the operations of round 1;
+   [x_broker] is PortBroker::m_ports.  [xrun] is None exactly when some operation (including a
+   PreSetUniverse hook looking at its siblings, RestorePortSettings and SavePortPatchings) dereferenced a
+   universe that is not live. *)
+
+(* c03_inv over histories that include device registration / unregistration, for every veto function
+   and every preloaded preference set; plus: a port that still exists is in the PortBroker exactly when
+   it is patched. *)
+Theorem c03x_inv : forall (xc : xcfg) (ops : list xop),
+  exists x s, xrun xc (xinit xc) ops = Some x /\ s = x_s x /\
+  (forall o u p, s_heap s o = Live u -> (listed u p <-> s_puniv s p = Some o)) /\
+  (forall o u p, s_heap s o = Live u -> In p (u_in u) ->
+      exists pc, port_cfg (xc_cfg xc) p = Some pc /\ pc_in pc = true) /\
+  (forall o u p, s_heap s o = Live u -> In p (u_out u) ->
+      exists pc, port_cfg (xc_cfg xc) p = Some pc /\ pc_in pc = false) /\
+  (forall p o, s_puniv s p = Some o -> exists u, s_heap s o = Live u /\ listed u p) /\
+  (forall o1 o2 u1 u2 p, s_heap s o1 = Live u1 -> s_heap s o2 = Live u2 ->
+      listed u1 p -> listed u2 p -> o1 = o2) /\
+  (forall o u, s_heap s o = Live u -> NoDup (u_in u) /\ NoDup (u_out u)) /\
+  (forall p q pcp pcq dc o, p <> q -> port_cfg (xc_cfg xc) p = Some pcp -> port_cfg (xc_cfg xc) q = Some pcq ->
+      pc_dev pcp = pc_dev pcq -> dev_cfg (xc_cfg xc) (pc_dev pcp) = Some dc ->
+      s_puniv s p = Some o -> s_puniv s q = Some o ->
+      (dc_loop dc = false -> pc_in pcp = pc_in pcq) /\ (dc_multi dc = false -> pc_in pcp <> pc_in pcq)) /\
+  (forall p, s_pprio s p <= 200) /\
+  (forall n o, sfind n (s_store s) = Some o <-> exists u, s_heap s o = Live u /\ u_num u = n) /\
+  (forall o u, s_heap s o = Live u -> u_active u = false -> In o (s_cand s)) /\
+  (forall o, In o (s_cand s) -> exists u, s_heap s o = Live u) /\
+  (forall p, s_pdead s p = true -> s_puniv s p = None) /\
+  (forall p, s_pdead s p = false -> (x_broker x p = true <-> s_puniv s p <> None)).
+Proof. exact c03x_inv_l. Qed.
+Print Assumptions c03x_inv.
+
+(* c03_patch_result in every state reachable through the extended operations, for every veto function *)
+Theorem c03x_patch_result : forall (xc : xcfg) (ops : list xop) (x : xstate) (p n : N),
+  xrun xc (xinit xc) ops = Some x ->
+  exists x' b, xstep xc x (XBase (Patch p n)) = XOk x' (RBool b) /\
+    (b = true <-> exists o u, s_puniv (x_s x') p = Some o /\ s_heap (x_s x') o = Live u /\ u_num u = n).
+Proof. exact c03x_patch_result_l. Qed.
+Print Assumptions c03x_patch_result.
+
+(* an un-patch request either succeeds (port unpatched and out of the broker) or is refused by the
+   plugin, in which case nothing changes for any port *)
+Theorem c03x_unpatch_result : forall (xc : xcfg) (ops : list xop) (x : xstate) (p : N),
+  xrun xc (xinit xc) ops = Some x ->
+  exists x' b, xstep xc x (XBase (Unpatch p)) = XOk x' (RBool b) /\
+    (b = true -> s_puniv (x_s x') p = None /\ x_broker x' p = false) /\
+    (b = false -> s_puniv (x_s x') = s_puniv (x_s x) /\ x_broker x' = x_broker x).
+Proof. exact c03x_unpatch_result_l. Qed.
+Print Assumptions c03x_unpatch_result.
+
+(* every extended operation completes in every reachable state, and only GC ends a universe's life,
+   only when nothing refers to it *)
+Theorem c03x_lifetime : forall (xc : xcfg) (ops : list xop) (x : xstate) (o : xop),
+  xrun xc (xinit xc) ops = Some x ->
+  exists x' r, xstep xc x o = XOk x' r /\
+    forall a u, s_heap (x_s x) a = Live u ->
+      (exists u', s_heap (x_s x') a = Live u' /\ u_num u' = u_num u) \/
+      (o = XBase GC /\ u_active u = false /\ s_heap (x_s x') a = Freed).
+Proof. exact c03x_lifetime_l. Qed.
+Print Assumptions c03x_lifetime.
+
+(* Unregistering a device the way every plugin does (DeviceManager::UnregisterDevice, then
+   Device::Stop): UnregisterDevice itself only saves the settings (the patching is untouched);
+   after the stop none of the device's ports is patched or listed by any universe and every universe
+   left unused is queued for collection.  The PortBroker is NOT told: [x_broker] is unchanged, i.e. the
+   keys of the deleted ports stay behind (see ex_broker_stale). *)
+Theorem c03_unregister_clean : forall (xc : xcfg) (ops : list xop) (x : xstate) (d : N) (dc : dcfg),
+  xrun xc (xinit xc) ops = Some x -> dev_cfg (xc_cfg xc) d = Some dc ->
+  exists x1 r1 x2,
+    xstep xc x (XUnregister d) = XOk x1 r1 /\ x_s x1 = x_s x /\
+    xstep xc x1 (XBase (Stop d)) = XOk x2 RUnit /\
+    (forall q pc, port_cfg (xc_cfg xc) q = Some pc -> pc_dev pc = d ->
+       s_puniv (x_s x2) q = None /\
+       forall o u, s_heap (x_s x2) o = Live u -> ~ listed u q) /\
+    (forall o u, s_heap (x_s x2) o = Live u -> u_active u = false -> In o (s_cand (x_s x2))) /\
+    x_broker x2 = x_broker x.
+Proof. exact c03_unregister_clean_l. Qed.
+Print Assumptions c03_unregister_clean.
+
+(* ---------- examples for round 2 *)
+(* ShowNet-style hook: port 0 refuses every change while its sibling port 1 is patched *)
+Definition ex_xcfg : xcfg :=
+  mkxcfg (mkcfg [mkpcfg 0 true CapStatic []; mkpcfg 0 false CapFull []] [mkdcfg true true])
+         (fun p _ v => match p with
+                       | 0 => match v with [_; (_, Some _)] => true | _ => false end
+                       | _ => false end)
+         (fun p => match p with 1 => Some 9 | _ => None end) (fun _ => None) (fun _ => None).
+
+(* a refused un-patch changes nothing; the port is still patched, listed and in the broker after GC *)
+Example ex_unpatch_refused :
+  match xrun ex_xcfg (xinit ex_xcfg) [XBase (Patch 0 1); XBase (Patch 1 2)] with
+  | Some x =>
+    match xstep ex_xcfg x (XBase (Unpatch 0)) with
+    | XOk x' (RBool false) => port_unum (x_s x') 0 = Some (Some 1) /\ x_broker x' 0 = true
+    | _ => False
+    end
+  | None => False
+  end.
+Proof. vm_compute. split; reflexivity. Qed.
+
+(* registration restores the saved patching (universe 9 for port 1) through PatchPort *)
+Example ex_register_restores :
+  match xrun ex_xcfg (xinit ex_xcfg) [XRegister 0] with
+  | Some x => port_unum (x_s x) 1 = Some (Some 9) /\ x_broker x 1 = true /\ x_reg x 0 = true
+  | None => False
+  end.
+Proof. vm_compute. repeat split; reflexivity. Qed.
+
+(* unregister + stop leaves the key of the deleted port in the broker *)
+Example ex_broker_stale :
+  match xrun ex_xcfg (xinit ex_xcfg) [XRegister 0; XUnregister 0; XBase (Stop 0); XBase GC] with
+  | Some x => x_broker x 1 = true /\ s_pdead (x_s x) 1 = true /\ s_store (x_s x) = [] /\ x_puni x 1 = Some 9
+  | None => False
+  end.
+Proof. vm_compute. repeat split; reflexivity. Qed.
